@@ -161,6 +161,21 @@ func init() {
 				c07Compare(c, o, full, ff, c07Single[li.Name], "only "+li.Name, desc, day)
 				c.R.Distinct("lints_run_alone", li.Name)
 			}
+			// filters made on the spot: the registry is built, then a sibling selection is filtered from the same
+			// source (and dropped), and only then is the first registry used
+			for k := 0; k < 2; k++ {
+				fo := randFilter(rng, false)
+				if fo.Empty() {
+					continue
+				}
+				fr, err := g.Filter(fo)
+				if err != nil || len(fr.Names()) == 0 {
+					continue
+				}
+				_, _ = g.Filter(c08Sibling(rng, fo))
+				c07Compare(c, o, full, ff, fr, "fresh "+describeFilter(fo), desc, day)
+				c.R.Count("fresh_filter_runs", 1)
+			}
 			nf := 3
 			if isSeed {
 				nf = len(c07Filters)
